@@ -16,7 +16,7 @@ def gen(src, consts):
     if len(tries) != 1:
         raise ExtractError('write_to_socket: expected one try in the send loop')
     tb = [ast.unparse(st) for st in tries[0].body if not is_logging(st)]
-    sends = [k for k, u in enumerate(tb) if 'self.socket.send(frame_data[total_bytes_written:])' in u]
+    sends = [k for k, u in enumerate(tb) if '.send(frame_data[total_bytes_written:])' in u]
     adds = [k for k, u in enumerate(tb) if u == 'total_bytes_written += bytes_written']
     # counted inside the try, after the send, and nowhere else in the loop (a statement after the try would
     # also run when send() raised socket.timeout or EAGAIN, with the count of the previous send)
